@@ -369,7 +369,8 @@ func (s *Service) purgeInactiveProcessors() {
 
 				for nodeID, processors := range s.processors {
 					for shardID, p := range processors {
-						if !p.Empty() {
+						empty := p.Empty()
+						if !empty {
 							lm, err := p.LastModified()
 							if err != nil {
 								s.Logger.Error("Failed to determine LastModified for processor", zap.Uint64("nodeID", nodeID), zap.Uint64("shardID", shardID), zap.Error(err))
@@ -392,7 +393,17 @@ func (s *Service) purgeInactiveProcessors() {
 							}
 						}
 
-						if err := p.Close(); err != nil {
+						if empty {
+							// WriteShard appends without holding the service lock: a write
+							// accepted since the queue was found empty must not be removed
+							// with it. Decide again with writers excluded.
+							if closed, err := p.CloseIfEmpty(); err != nil {
+								s.Logger.Error("Failed to close node processor", zap.Uint64("nodeID", nodeID), zap.Uint64("shardID", shardID), zap.Error(err))
+								continue
+							} else if !closed {
+								continue
+							}
+						} else if err := p.Close(); err != nil {
 							s.Logger.Error("Failed to close node processor", zap.Uint64("nodeID", nodeID), zap.Uint64("shardID", shardID), zap.Error(err))
 							continue
 						}
